@@ -22,6 +22,11 @@ func (f *Frame) call(ins ssa.Instruction, c *ssa.CallCommon, st *State) (Value, 
 	// may-panic call sites named by the contract under verification: fork before the call
 	// (the callee panics before it has any effect visible here)
 	if f.mayPanicSite(ins) && !f.runningDeferred() {
+		// in a function that claims the absence of panics and does not recover, a call of code
+		// that may panic must be unreachable
+		if root := f.rootFrame(); root.fc != nil && root.fc.NoPanic && !root.fc.Recovers {
+			f.safety("maypanic", ins, "call of code that may panic (declared `maypanic`) in a function that must not panic", st, tFalse)
+		}
 		pk := f.u.sc.fresh("panics", SBool)
 		pst := st.clone()
 		pst.reach = f.u.freshDef("reach", mkAnd(st.reach, pk))
